@@ -106,7 +106,7 @@ def run_harness(copy, h, jobs_env, extra_args=()):
     env['CARGO_NET_OFFLINE'] = 'true'
     env.update(jobs_env)
     t0 = time.time()
-    timeout = int(h.get('timeout_s', 600))
+    timeout = max(int(h.get('timeout_s', 600)), 1500)   # floor: a loaded machine must not turn an admitted harness into 'inconclusive'
     mem_kb = int(h.get('mem_gb', 20)) * 1024 * 1024
     try:
         p = subprocess.run(['bash', '-c', 'ulimit -v %d; exec "$@"' % mem_kb, 'bash'] + cmd, cwd=copy, env=env,
